@@ -42,7 +42,7 @@ CLAIMED = {
          "Trusted: Lean kernel; standard axioms; the study-level correspondence harness; Python str()/yaml/md5 (oracle inputs to the model); re semantics of the two regular expressions modelled (ASCII \\w); names are kept ASCII by the generators.",
          "DESIGN.md §6 C09"),
  "C10": ("proof",
-         "alphabet regenerated from make_safe_path + Lean theorems (component safety for every string, identity on safe names, one path level per component, containment) with proved counterexamples; make_safe_path correspondence on arbitrary printable strings; workspace / script-path monitor on real staged studies and generated scripts (local/slurm/lsf, +-hashws, +-usetmp)",
+         "alphabet regenerated from make_safe_path + Lean theorems (component safety for every string, identity on safe names, one path level per component, containment, the captured stdout/stderr of a local step one level below its launch directory, workspace shape / distinctness / containment of every instance of the finished graph under CleanSpec) with proved counterexamples; make_safe_path correspondence on arbitrary printable strings; workspace / script-path monitor on real staged studies and generated scripts (local/slurm/lsf, +-hashws, +-usetmp)",
          "Component safety holds for every argument (re-proved against the regenerated alphabet on every run); distinctness and containment are proved under explicit hypotheses, and the unrestricted statement is false: four known findings (sanitiser collisions, degenerate components, '/' in a label, hashws+usetmp) each with a deterministic corpus case and a match predicate keyed on the cause.",
          "Trusted: Lean kernel; standard axioms; the study-level correspondence harness; Python str()/yaml/md5 (oracle inputs to the model); re semantics of the two regular expressions modelled (ASCII \\w); names are kept ASCII by the generators. md5 is an oracle (injectivity on a study's label strings assumed for hashed names).",
          "DESIGN.md §6 C10"),
@@ -53,7 +53,7 @@ CLAIMED = {
          "DESIGN.md §6 C11"),
  "C12": ("proof",
          "Lean 4 round-trip theorem readCsv(writeCsv t) = t for comma/newline-free fields + proved counterexamples; lock-protocol invariant over all writer/reader schedules (no torn read); byte-level correspondence of the real write_status / csvtable_to_dict with the model after every poll of conductor-level scenarios; recorded lock/file operation order vs the model's programs",
-         "The reader/writer pair is proved to round-trip every table whose fields contain no comma, newline or carriage return (the unrestricted statement is false: two known findings with Lean witnesses). Concurrent reads: for every interleaving of the modelled writer and reader (including lock time-outs) a completed read returns a complete table; the modelled programs are checked against the operation order recorded from the real code on every run. Row completeness/consistency is monitored against the scripted scheduler's ledger after every poll.",
+         "The reader/writer pair is proved to round-trip every table whose fields contain no comma, newline or carriage return (the unrestricted statement is false: two known findings with Lean witnesses). Concurrent reads: for every interleaving of the modelled writer and reader (including lock time-outs) a completed read returns a complete table; the modelled programs are checked against the operation order recorded from the real code on every run. The order in which rows are emitted (status_subtree) is proved to list exactly the instances reachable from _source, each once - every instance when all hang below _source - over Model/Dag.statusOrder, which is compared with the real status_subtree in every execution scenario; row contents are monitored against the scripted scheduler's ledger and the live records (state, job id, restart count) after every poll.",
          "Trusted: Lean kernel; standard axioms; filelock/OS mutual exclusion and atomicity of a single write (runtime behaviour, sampled by the thorough-tier multi-process stress run); text-mode newline translation modelled; timestamps columns compared as written.",
          "DESIGN.md §6 C12"),
  "C18": ("other",
